@@ -739,10 +739,12 @@ func main() {
 			"thorough: the same with every template as child (full depth 2) plus depth-3 spines root[child[grandchild]] over class representatives; " +
 			"oracle: first parse without diagnostics => String() parses without diagnostics and the trees are equal ignoring locations; " +
 			"non-trivial = programs whose first parse is clean (only those are cases of the property); outcomes = AST node classes of the roots exercised",
-		Assume:      []string{"reflection-based structural equality ignores the fields loc, typ, static and position values"},
-		CaseTimeout: 300 * time.Second,
-		Setup:       func(c *engine.Ctx) { elkrun.Init() },
-		Run:         run,
+		Assume:           []string{"reflection-based structural equality ignores the fields loc, typ, static and position values"},
+		CaseTimeout:      300 * time.Second,
+		QuickDeadline:    12 * time.Minute,
+		ThoroughDeadline: 60 * time.Minute,
+		Setup:            func(c *engine.Ctx) { elkrun.Init() },
+		Run:              run,
 	})
 }
 
